@@ -18,7 +18,7 @@ use std::time::Duration;
 pub const META: Meta = Meta {
     id: "C18",
     level: "fault_enumeration",
-    rule: "Real files in a scratch directory: sizes {0,1,65535,65536,65537,131072,200001} x every range whose ends lie on, one before or one after each 64 KiB read boundary (plus 0, 1, size-1, size; empty and whole ranges) read through get_range and through serve() with a Range header; truncation of the file to each of {0, start, start+1, a boundary-1, a boundary, end-1} between construction and poll k for every k; growth after construction; metadata and ETag under re-open, under metadata-only inode operations in a later wall-clock second (chmod, hard link, rename and back, the same mtime re-applied: same tag), append, set_modified(+-1 ns, +-1 s), replacement by a same-length same-mtime file; directories and /dev/null as non-regular files; two or three streams of one entity polled alternately; ranges of 2^32 bytes and more on sparse files (first chunks). Oracle: std::fs (file bytes, Metadata), non-empty chunks, clean end or an error (never a short clean end, never an empty chunk) within a poll budget owned by the harness. Non-trivial = range crossing a 64 KiB boundary, or a truncation that hits mid-stream; distinct by fingerprint of case.",
+    rule: "Real files in a scratch directory: sizes {0,1,65535,65536,65537,131072,200001} x every range whose ends lie on, one before or one after each 64 KiB read boundary (plus 0, 1, size-1, size; empty and whole ranges) read through get_range and through serve() with a Range header; truncation of the file to each of {0, start, start+1, a boundary-1, a boundary, end-1} between construction and poll k for every k; growth after construction; metadata and ETag under re-open, under metadata-only inode operations in a later wall-clock second (chmod, hard link, rename and back, the same mtime re-applied: same tag), append, set_modified(+-1 ns, +-1 s), replacement by a same-length same-mtime file; directories and /dev/null as non-regular files; two or three streams of one entity polled alternately; ranges of 2^32 bytes and more on sparse files (first chunks); whole sparse files of 64-100 MiB (thorough 1 GiB) read to the end (over a thousand reads of one stream). Oracle: std::fs (file bytes, Metadata), non-empty chunks, clean end or an error (never a short clean end, never an empty chunk) within a poll budget owned by the harness. Non-trivial = range crossing a 64 KiB boundary, or a truncation that hits mid-stream; distinct by fingerprint of case.",
     assumptions: &[
         "sandbox filesystem semantics (regular files give full reads; running as root, permission errors are not explored)",
         "an ETag difference after a metadata change is demanded only when std::fs::Metadata itself reports the change",
@@ -275,26 +275,46 @@ async fn sparse_case(dir: &Path, size: u64, start: u64, end: u64, polls: u32) ->
         let f = File::create(&p).expect("create");
         f.set_len(size).expect("set_len (sparse)");
     }
+    // a marker byte every 7 MiB + 13 (and at the last byte), so that positions are visible
+    let stride = 7 * (1u64 << 20) + 13;
+    {
+        use std::os::unix::fs::FileExt;
+        let f = File::options().write(true).open(&p).expect("open for markers");
+        let mut at = stride;
+        while at < size && size <= (1 << 31) {
+            f.write_all_at(&[0xA5], at).expect("marker");
+            at += stride;
+        }
+    }
+    let marker = |pos: u64| size <= (1 << 31) && pos >= stride && pos % stride == 0;
     let crf = Crf::new(File::open(&p).expect("open"), http::HeaderMap::new()).map_err(|e| Fail { sig: "construct-failed".into(), msg: e.to_string() })?;
     ensure!(crf.len() == size, "len-differs", "len() is {}, the sparse file has {size} bytes", crf.len());
     let what = format!("sparse file of {size} bytes, range {start}..{end}");
     let mut s = crf.get_range(start..end);
     let mut got = 0u64;
+    let mut ended = false;
     for i in 0..polls {
         match next(&mut s).await {
             Item::Panic(m) => return fail("panic", format!("poll {i} panicked: {m}; {what}")),
             Item::End => {
                 ensure!(got == end - start, "short-clean-end", "stream ended after {got} of {} bytes; {what}", end - start);
+                ended = true;
                 break;
             }
             Item::Err(e) => return fail("sparse:error", format!("poll {i} failed ({e}) after {got} bytes although the file was not touched; {what}")),
             Item::Data(d) => {
                 ensure!(!d.is_empty(), "empty-chunk", "poll {i} yielded an empty chunk after {got} bytes; {what}");
-                ensure!(d.iter().all(|b| *b == 0), "bytes-differ", "non-zero bytes from a sparse file; {what}");
+                let base = start + got;
+                let ok = d.iter().enumerate().all(|(k, b)| *b == if marker(base + k as u64) { 0xA5 } else { 0 });
+                ensure!(ok, "bytes-differ", "bytes at {base}.. differ from the file (zeros with a marker every {stride} bytes); {what}");
                 got += d.len() as u64;
                 ensure!(got <= end - start, "too-many-bytes", "{got} bytes for a range of {}; {what}", end - start);
             }
         }
+    }
+    // with the poll budget of the other stream checks (one poll per 64 KiB read, plus slack) the stream must have finished
+    if !ended && polls as u64 >= (end - start) / 65536 + 3 {
+        return fail("sparse:not-finished", format!("{polls} polls delivered {got} of {} bytes and the stream has not ended; {what}", end - start));
     }
     let _ = std::fs::remove_file(&p);
     Ok(())
@@ -746,6 +766,24 @@ pub fn run(cx: &Cx) -> Acc {
             });
         }));
     }
+    // The *number* of reads of one stream: whole sparse files of 64-100 MiB (thorough: 1 GiB) drained
+    // to the end, position markers every 7 MiB + 13.
+    let long: Vec<(u64, u64)> = if cx.tier == Tier::Thorough { vec![((100 << 20) + 7, 0), ((64 << 20) + 1, 3), (1 << 30, 5), ((300 << 20) + 65_535, 65_537)] } else { vec![((100 << 20) + 7, 0), ((64 << 20) + 1, 3)] };
+    acc.merge(par_units(cx, "long-drain", &long, false, "whole sparse files of 64 MiB and more read to the end through get_range (over a thousand reads of one stream)", |cx, &(size, a), acc| {
+        let scratch = Scratch::new(&format!("c18l-{size}"));
+        let polls = ((size - a) / 65536 + 4) as u32;
+        let case = json!({"sparse": {"size": size, "start": a, "end": size, "polls": polls}});
+        let dir = scratch.dir.clone();
+        with_runtime(|rt| {
+            let ok = acc.run_case(cx, "long-drain", &case, |_| match rt.block_on(rt.spawn(async move { sparse_case(&dir, size, a, size, polls).await })) {
+                Ok(r) => r,
+                Err(e) => fail("panic", format!("task panicked: {e}")),
+            });
+            if ok {
+                acc.note("long-drain", true, crate::util::mix(size, a), || case.clone());
+            }
+        });
+    }));
     let sizes: Vec<u64> = SIZES.to_vec();
     acc.merge(par_units(cx, "metadata", &sizes, true, "re-open, metadata-only inode operations one second later (chmod, hard link, rename and back, same mtime re-applied), mtime +-1ns/+-1s, append, same-length same-mtime replacement; non-regular files", |cx, &size, acc| {
         let scratch = Scratch::new(&format!("c18m-{size}"));
@@ -776,8 +814,9 @@ pub fn replay(_cx: &Cx, _phase: &str, case: &Value, acc: &mut Acc) -> Check {
     }
     if let Some(sp) = case.get("sparse") {
         let (size, a, b) = (sp["size"].as_u64().unwrap_or(0), sp["start"].as_u64().unwrap_or(0), sp["end"].as_u64().unwrap_or(0));
+        let polls = sp["polls"].as_u64().unwrap_or(6) as u32;
         let dir = scratch.dir.clone();
-        return with_runtime(|rt| match rt.block_on(rt.spawn(async move { sparse_case(&dir, size, a, b, 6).await })) {
+        return with_runtime(|rt| match rt.block_on(rt.spawn(async move { sparse_case(&dir, size, a, b, polls).await })) {
             Ok(r) => r,
             Err(e) => fail("panic", format!("task panicked: {e}")),
         });
